@@ -531,21 +531,47 @@ Proof.
   intros HD Hc. split; [split; [eapply DrainInv_WF; eauto | exact Hc] | apply HD].
 Qed.
 
-Lemma call_or_drain_Z (E : env key V query cstate) cl c (w : world) :
-  DrainInv c (self w) ->
-  wp (call_or_drain E cl c) (fun _ w' => self w' = self w) (zpost w) w.
+(* the rest of a Drain destroyed while unwinding: the register stays empty *)
+Lemma unwind_drain_Z (E : env key V query cstate) c (w w0 : world) :
+  DrainInv c (self w) -> cap (self w) = cap (self w0) ->
+  wp (unwind_drain E c) (fun _ => zpost w0) (fun _ => False) w.
 Proof.
-  intros HD.
-  assert (Hf : frame (bind (@emit key V cstate [EvCall 4]) (fun _ => cbk cl))).
-  { apply frame_bind; [apply frame_emit | intros _; apply frame_cbk]. }
-  specialize (Hf w). unfold wp in Hf |- *. unfold call_or_drain.
-  destruct (bind (@emit key V cstate [EvCall 4]) (fun _ => cbk cl) w) as [a w1|w1|];
-    [exact Hf | | exact Hf].
-  assert (HD1 : DrainInv c (self w1)) by (rewrite Hf; exact HD).
-  pose proof (drain_drop_spec E c w1 HD1) as Hd. unfold wp in Hd.
-  destruct (drain_drop E c w1) as [u w2|w2|]; [| |exact Hd];
-    destruct Hd as (H1 & H2 & H3); (split; [split; [exact H1 | congruence] | exact H2]).
+  intros (Hl & Hc & Hs) Hc0. unfold unwind_drain.
+  eapply wp_mono; [apply Safety2.unwind_range_spec | |]; cbn beta; [| |tauto].
+  - intros j Hj. apply Hs. unfold cursor_len in Hj. lia.
+  - intros _ w' (H1 & H2 & _). split; [|lia]. split; [|congruence].
+    split; [lia | intros i Hi; lia].
 Qed.
+
+Lemma call_or_drain_Z (E : env key V query cstate) cl p c (w : world) :
+  DrainInv c (self w) ->
+  wp (call_or_drain E cl p c) (fun _ w' => self w' = self w) (zpost w) w.
+Proof.
+  intros HD. unfold call_or_drain. apply wp_on_unwind.
+  apply wp_frame.
+  { apply frame_bind; [apply frame_emit|]. intros _.
+    apply frame_bind; [apply frame_cbk|]. intros _. apply frame_ret. }
+  - intros _ w1 Hs1. exact Hs1.
+  - intros w1 Hs1. apply wp_bind.
+    eapply wp_mono; [apply unwind_pair_nopanic | |]; cbn beta; [|tauto].
+    intros _ w2 Hs2.
+    eapply wp_mono; [apply unwind_drain_Z with (w0 := w); rewrite Hs2, Hs1; [exact HD | reflexivity] | |];
+      cbn beta; tauto.
+Qed.
+
+Lemma drop_or_drain_Z (E : env key V query cstate) p c (w : world) :
+  DrainInv c (self w) ->
+  wp (on_unwind (unwind_drain E c) (drop_pair E p)) (fun _ w' => self w' = self w) (zpost w) w.
+Proof.
+  intros HD. apply wp_on_unwind. apply wp_frame; [apply frame_drop_pair | |].
+  - intros _ w1 Hs1. exact Hs1.
+  - intros w1 Hs1.
+    eapply wp_mono; [apply unwind_drain_Z with (w0 := w); rewrite Hs1; [exact HD | reflexivity] | |];
+      cbn beta; tauto.
+Qed.
+
+Lemma zpost_base (w w1 w' : world) : cap (self w1) = cap (self w) -> zpost w1 w' -> zpost w w'.
+Proof. intros Hc [[H1 H2] H3]. split; [split; [exact H1 | congruence] | exact H3]. Qed.
 
 Lemma drain_for_each_Z (E : env key V query cstate) cl : forall fuel c cnt (w : world),
   DrainInv c (self w) ->
@@ -559,9 +585,26 @@ Proof.
     destruct o as [p|]; [|apply wp_ret; exact H1].
     apply wp_bind. eapply wp_mono; [apply call_or_drain_Z; exact HD1 | |]; cbn beta.
     + intros _ w2 Hs2. eapply wp_mono; [apply IH; rewrite Hs2; exact HD1 | |]; cbn beta.
-      * intros _ w3 [[H3 H3c] H3l]. split; [split; [exact H3 | rewrite H3c, Hs2; exact Hc1] | exact H3l].
-      * intros w3 [[H3 H3c] H3l]. split; [split; [exact H3 | rewrite H3c, Hs2; exact Hc1] | exact H3l].
-    + intros w2 [[H3 H3c] H3l]. split; [split; [exact H3 | congruence] | exact H3l].
+      * intros _ w3 H3. eapply zpost_base; [|exact H3]. rewrite Hs2. exact Hc1.
+      * intros w3 H3. eapply zpost_base; [|exact H3]. rewrite Hs2. exact Hc1.
+    + intros w2 H2. eapply zpost_base; [exact Hc1 | exact H2].
+Qed.
+
+Lemma drain_count_Z (E : env key V query cstate) : forall fuel c cnt (w : world),
+  DrainInv c (self w) ->
+  wp (drain_count E fuel c cnt) (fun _ => zpost w) (zpost w) w.
+Proof.
+  induction fuel as [|f IH]; intros c cnt w HD; cbn [drain_count].
+  - apply wp_ret. eapply DrainInv_zpost; eauto.
+  - apply wp_bind. eapply wp_mono; [apply drain_next_spec; exact HD | |]; cbn beta; [|tauto].
+    intros [o c'] w1 (HD1 & Hc1 & _). cbn [snd] in HD1.
+    assert (H1 : zpost w w1) by (eapply DrainInv_zpost; eauto).
+    destruct o as [p|]; [|apply wp_ret; exact H1].
+    apply wp_bind. eapply wp_mono; [apply drop_or_drain_Z; exact HD1 | |]; cbn beta.
+    + intros _ w2 Hs2. eapply wp_mono; [apply IH; rewrite Hs2; exact HD1 | |]; cbn beta.
+      * intros _ w3 H3. eapply zpost_base; [|exact H3]. rewrite Hs2. exact Hc1.
+      * intros w3 H3. eapply zpost_base; [|exact H3]. rewrite Hs2. exact Hc1.
+    + intros w2 H2. eapply zpost_base; [exact Hc1 | exact H2].
 Qed.
 
 Lemma keepsU_drain_session (E : env key V query cstate) rp dk dv with_dbg cl take fate :
@@ -592,10 +635,14 @@ Proof.
     + destruct (N.eqb fate 2).
       * apply wp_bind.
         eapply wp_mono; [apply drain_for_each_Z; exact HD4 | |]; cbn beta.
-        -- intros n w5 [[H5 H5c] H5l]. apply wp_ret. apply wp_ret.
-           apply zpost_invU. split; [split; [exact H5 | congruence] | exact H5l].
-        -- intros w5 [[H5 H5c] H5l]. apply zpost_invU. split; [split; [exact H5 | congruence] | exact H5l].
-      * apply wp_ret. apply wp_ret. apply zpost_invU. exact H4.
+        -- intros n w5 H5. apply wp_ret. apply wp_ret. apply zpost_invU. eapply zpost_base; eauto.
+        -- intros w5 H5. apply zpost_invU. eapply zpost_base; eauto.
+      * destruct (N.eqb fate 3).
+        -- apply wp_bind.
+           eapply wp_mono; [apply drain_count_Z; exact HD4 | |]; cbn beta.
+           ++ intros n w5 H5. apply wp_ret. apply wp_ret. apply zpost_invU. eapply zpost_base; eauto.
+           ++ intros w5 H5. apply zpost_invU. eapply zpost_base; eauto.
+        -- apply wp_ret. apply wp_ret. apply zpost_invU. exact H4.
   - intros w1 Hs1. apply invU_refl; auto.
 Qed.
 
@@ -1293,6 +1340,8 @@ Lemma keepsU_op_s_into_iter sc take fate :
               tail <- (if N.eqb fate 0 then (drop_map (env_set sc) ;; ret [])
                        else if N.eqb fate 2
                             then (n <- finally_drop (env_set sc) (set_into_for_each sc (S l) 0) ;; ret [nn n])
+                       else if N.eqb fate 3
+                            then (n <- finally_drop (env_set sc) (set_into_count sc (S l) 0) ;; ret [nn n])
                             else ret []) ;;
               ret (acc ++ [nn l] ++ tail)) ;;
           ret body).
@@ -1311,12 +1360,17 @@ Proof.
       * intros w2 _. apply Hfin.
     + destruct (N.eqb fate 2).
       * apply wp_bind.
-        eapply wp_mono; [apply Safety3.wp_finally_drop with (Qn := fun _ _ => True) | |]; cbn beta.
-        -- eapply wp_mono; [apply keeps_set_into_for_each; exact Hw1 | |]; cbn beta; [auto|].
-           intros w' [H _]. exact H.
+        eapply wp_mono; [apply wp_finally_keeps; [apply keeps_set_into_for_each | exact Hw1] | |];
+          cbn beta.
         -- intros n w2 _. apply wp_ret. apply wp_ret. apply wp_ret. apply Hfin.
         -- intros w2 _. apply Hfin.
-      * apply wp_ret. apply wp_ret. apply wp_ret. apply Hfin.
+      * destruct (N.eqb fate 3).
+        -- apply wp_bind.
+           eapply wp_mono; [apply wp_finally_keeps; [apply keeps_set_into_count | exact Hw1] | |];
+             cbn beta.
+           ++ intros n w2 _. apply wp_ret. apply wp_ret. apply wp_ret. apply Hfin.
+           ++ intros w2 _. apply Hfin.
+        -- apply wp_ret. apply wp_ret. apply wp_ret. apply Hfin.
   - intros w1 _. apply Hfin.
 Qed.
 
@@ -1423,12 +1477,12 @@ Proof.
     intros r w1 (H1 & H2 & _). auto.
   - apply wp_bind. eapply wp_mono; [apply drain_next_spec; exact HD | |]; cbn beta; [|tauto].
     intros [o c'] w1 (HD1 & Hc1 & _). cbn [snd] in HD1. destruct o as [p|].
-    + apply wp_frame_bind; [apply frame_drop_pair | |].
+    + apply wp_bind. eapply wp_mono; [apply drop_or_drain_Z; exact HD1 | |]; cbn beta.
       * intros _ w2 Hs2.
         eapply wp_mono; [apply IH; rewrite Hs2; exact HD1 | |]; cbn beta.
         -- intros r w3 [H3 Hc3]. split; [exact H3 | congruence].
         -- intros w3 [[H3 Hc3] Hl3]. split; [split; [exact H3 | congruence] | exact Hl3].
-      * intros w2 Hs2. apply DrainInv_zpost with (c := c'); rewrite Hs2; assumption.
+      * intros w2 H2. eapply zpost_base; [exact Hc1 | exact H2].
     + apply wp_ret. cbn [snd]. auto.
 Qed.
 
